@@ -13,6 +13,7 @@ from sim import kernel, world as world_mod, patches, host
 
 PROPERTY = 'C16'
 LEVEL = 'exploration'
+ISOLATE = True  # every plan runs in a forked child: interpreter-global state cannot leak between plans
 RULE_TEXT = ('runs = seeded random suite hierarchies (depth <= 3, <= 3 sub-suites and <= 5 cases per suite; listings by '
              'plain names in random order, glob patterns, directory references to exactly.suite; suite-level [setup] '
              'markers) with every case built from a known ending (PASS, FAIL, XFAIL, XPASS, SKIPPED, VALIDATION_ERROR, '
